@@ -15,7 +15,7 @@ from vfw.ctx import Mismatch
 
 PROPERTY = "C16"
 
-DISTURBERS = ["none", "define-same-names", "drive-same-names", "second-instance", "subclass-new-event", "subclass-any", "define-other-signature-lambda"]
+DISTURBERS = ["none", "other-driven-inside-callback", "sibling-other-start-value", "define-same-names", "drive-same-names", "second-instance", "subclass-new-event", "subclass-any", "define-other-signature-lambda"]
 
 
 def make_A():
@@ -31,6 +31,7 @@ def make_A():
         def __init__(self, *a, **k):
             self.trace = []
             self.vals = {"ok": None}
+            self.inner = None
             StateMachine.__init__(self, *a, **k)
 
         def ok(self, x=None, *, strict=False):
@@ -39,6 +40,9 @@ def make_A():
 
         def on_go(self, x, source, *, flag=None):
             self.trace.append(("on_go", x, source.id, flag))
+            if self.inner is not None:
+                inner, self.inner = self.inner, None
+                inner(self)  # something else happens while this machine is in the middle of its transition
             return ("A", x, flag)
 
         def on_enter_state(self, state):
@@ -126,12 +130,12 @@ BUDGET = {
 BOUNDS = {
     "quick": "machine A (3 states, guarded + fallback candidates, callbacks taking event arguments positionally and keyword-only) driven by 3 `go` events; before "
     "each of the first two events one disturber out of {none, define an unrelated class with A's qualified class and method names but other signatures, define and "
-    "drive it, create and drive a second A, define a subclass of A that adds an event on A's states, define a subclass using from_.any(), define a lambda-bearing "
-    "class}; optionally another machine over a model of the same class but other instance-level hooks created first; a sample of the 7x7 disturber pairs; A's trace, states, allowed events, argument binding and result compared with A alone.",
-    "thorough": "all 49 disturber pairs.",
+    "drive it, create and drive a second A (between A's events, and from inside one of A's own callbacks), create siblings with other start_value, define a subclass of A that adds an event on A's states, define a subclass using from_.any(), define a lambda-bearing "
+    "class}; optionally another machine over a model of the same class but other instance-level hooks created first; a sample of the 9x9 disturber pairs; A's trace, states, allowed events, argument binding and result compared with A alone.",
+    "thorough": "all 81 disturber pairs.",
 }
 OUTSIDE = "interleavings across OS threads; more than two disturbers per history; pickling (C17)"
-OBLIGATIONS = ["same-names-kwonly-first", "model-of-same-class-before", "undisturbed", "same-names-defined", "second-instance", "subclass-defined", "binding-checked"]
+OBLIGATIONS = ["driven-inside-callback", "sibling-start-values", "same-names-kwonly-first", "model-of-same-class-before", "undisturbed", "same-names-defined", "second-instance", "subclass-defined", "binding-checked"]
 ASSUMPTIONS = [
     "the library's process-wide signature cache is emptied (through its own clear_cache hook, when present) at the start of every path, so that a path is a complete history",
     "A's expected behaviour is a table (A alone); comparing with a re-run would share the caches under test",
@@ -188,7 +192,10 @@ def run(ctx, params):
     done = []
     for k in range(params["steps"]):
         d = DISTURBERS[params["d1"] if k == 0 else params["d2"] if k == 1 else 0]
+        disturb.pending_inner = None
         disturb(ctx, d, A, done)
+        if disturb.pending_inner is not None:
+            sm.inner = disturb.pending_inner
         x = ctx.sym_int(f"x{k}")
         okv = ctx.sym_bool(f"ok{k}")
         vals["ok"] = okv
@@ -234,6 +241,30 @@ def disturb(ctx, d, A, done):
 
     done.append(d)
     if d == "none":
+        return
+    if d == "other-driven-inside-callback":
+        # while A is inside its next `go`, a second instance is created and driven from A's own callback
+        def inner(a_machine):
+            other = A()
+            other.vals["ok"] = True
+            r1 = other.send("go", 41, flag="in")
+            if other.current_state.id != "b" or r1 != ("A", 41, "in"):
+                raise Mismatch("other-machine-inert-while-first-is-busy", f"a machine created and driven from inside another machine's callback: state {other.current_state.id}, result {r1!r}")
+            a_machine.trace_mark = True
+
+        sm_holder = done  # noqa: F841
+        disturb.pending_inner = inner
+        ctx.cover("driven-inside-callback")
+        return
+    if d == "sibling-other-start-value":
+        s1 = A(start_value="b")
+        s2 = A()
+        if s1.current_state.id != "b" or s2.current_state.id != "a":
+            raise Mismatch("sibling-start-value-leaks", f"A(start_value='b') is in {s1.current_state.id}, a later A() in {s2.current_state.id}")
+        s3 = A(start_value="c")
+        if s3.current_state.id != "c":
+            raise Mismatch("sibling-start-value-leaks", f"A(start_value='c') after A() is in {s3.current_state.id}")
+        ctx.cover("sibling-start-values")
         return
     if d in ("define-same-names", "drive-same-names"):
         B = make_B_same_names()
